@@ -44,6 +44,21 @@ func (w *vfFailWriter) Write(p []byte) (int, error) {
 	return len(p), nil
 }
 
+// vfWrapper returns a renderer object for format f that can be used for several renders.
+func vfWrapper(t tabular.Table, f int) RenderTable {
+	switch f {
+	case 0:
+		return csv.Wrap(t)
+	case 1:
+		return json.Wrap(t)
+	case 2:
+		return markdown.Wrap(t)
+	case 3:
+		return texttable.Wrap(t)
+	}
+	return Wrap(t, "html")
+}
+
 func vfRenderTo(t tabular.Table, f int, w *vfFailWriter) error {
 	switch f {
 	case 0:
@@ -96,4 +111,37 @@ func VerifC15_writer() {
 			vfAssert(w.got[i] == F[i], "accepted-bytes-are-a-prefix")
 		}
 	}
+}
+
+// VerifC15_recover: one renderer object used for a failing render and then for a healthy one: the
+// failure leaves nothing behind - the second output is exactly the fault-free output.
+func VerifC15_recover() {
+	t := tabular.New()
+	t.AddHeaders("h", "i")
+	t.AddRowItems(vfString("b", 1, vfTXT), "x")
+	t.AddSeparator()
+	t.AddRowItems("r")
+	f := vfChoice("format", 5)
+	clean := &vfFailWriter{k: -1, mode: 1}
+	if vfRenderTo(t, f, clean) != nil {
+		vfFail("fault-free-render-ok")
+		return
+	}
+	W := clean.calls
+	rt := vfWrapper(t, f)
+	bad := &vfFailWriter{k: vfInt("k", 0, 40), mode: vfChoice("mode", 3), partial: vfInt("partial", 0, 3)}
+	vfAssume(bad.k < W)
+	err := rt.RenderTo(bad)
+	vfAssert(err != nil, "failure-surfaces-as-error")
+	good := &vfFailWriter{k: -1, mode: 1}
+	err2 := rt.RenderTo(good)
+	vfAssert(err2 == nil, "render-after-failure-ok")
+	vfAssert(len(good.got) == len(clean.got), "render-after-failure-is-the-fault-free-output")
+	if len(good.got) == len(clean.got) {
+		for i := range good.got {
+			vfAssert(good.got[i] == clean.got[i], "render-after-failure-is-the-fault-free-output")
+		}
+	}
+	s, err3 := rt.Render()
+	vfAssert(vfAnd(err3 == nil, s == string(clean.got)), "render-returns-what-renderto-writes")
 }
